@@ -18,6 +18,10 @@ type mapWorld struct {
 func (mw *mapWorld) memOfAlloc(v *vAlloc) *simMem { return mw.dev.memOf(v.a.Memory()) }
 
 func (mw *mapWorld) allocMappable(name string, typeIndex int, persistent bool, maxSize int) *vAlloc {
+	return mw.allocMappableIn(nil, name, typeIndex, persistent, maxSize)
+}
+
+func (mw *mapWorld) allocMappableIn(pool *Pool, name string, typeIndex int, persistent bool, maxSize int) *vAlloc {
 	size := verifNondetInt(name + "Size")
 	verifAssume(size >= 1)
 	verifAssume(size <= maxSize)
@@ -28,12 +32,12 @@ func (mw *mapWorld) allocMappable(name string, typeIndex int, persistent bool, m
 	reqs := core1_0.MemoryRequirements{Size: size, Alignment: 1, MemoryTypeBits: 1 << uint(typeIndex)}
 	a := &Allocation{}
 	var err error
-	p := verifCatch(func() { _, err = mw.al.AllocateMemory(&reqs, AllocationCreateInfo{Flags: flags}, a) })
+	p := verifCatch(func() { _, err = mw.al.AllocateMemory(&reqs, AllocationCreateInfo{Flags: flags, Pool: pool}, a) })
 	verifAssert("C"+pname(mw.prop)+"/map/allocation-does-not-panic", !p)
 	if p || err != nil {
 		return nil
 	}
-	v := &vAlloc{a: a, reqSize: size, reqAlign: 1, typeBits: 1 << uint(typeIndex), mappedReq: persistent, mapAllow: true}
+	v := &vAlloc{a: a, reqSize: size, reqAlign: 1, typeBits: 1 << uint(typeIndex), mappedReq: persistent, mapAllow: true, pool: pool}
 	mw.live = append(mw.live, v)
 	if persistent {
 		mw.ghostMaps[mw.memOfAlloc(v)]++
@@ -202,7 +206,8 @@ func (mw *mapWorld) flush(v *vAlloc, invalidate bool) {
 }
 
 // mapScript: cfg%32 device variant; cfg/32%2: memory type (0 coherent, 1 non-coherent); cfg/64%2: 0 = hysteresis script
-// (map/unmap pairs, allocate/free pairs, final operations), 1 = flush/invalidate with symbolic ranges.
+// (map/unmap pairs, allocate/free pairs, final operations), 1 = flush/invalidate with symbolic ranges;
+// cfg/128%2 = 1: the allocations live in a custom pool with 1000-byte blocks (not a multiple of the atom size).
 func mapScript(prop int, cfg int) {
 	w := newWorld(prop, cfg%32)
 	mw := &mapWorld{vWorld: w, ghostMaps: map[*simMem]int{}}
@@ -211,8 +216,21 @@ func mapScript(prop int, cfg int) {
 		typeIndex = tHostNonCoh
 	}
 	persistentA := verifChoice("persistentA", 2) == 1
-	a := mw.allocMappable("a", typeIndex, persistentA, 200)
-	b := mw.allocMappable("b", typeIndex, false, 200)
+	var pool *Pool
+	maxA, maxB := 200, 200
+	if (cfg/128)%2 == 1 {
+		// a custom pool whose block size (1000) is not a multiple of the atom size: ranges must be clamped to the block end
+		var perr error
+		pp := verifCatch(func() {
+			pool, _, perr = w.al.CreatePool(PoolCreateInfo{MemoryTypeIndex: typeIndex, BlockSize: 1000, MaxBlockCount: 1})
+		})
+		verifAssume(!pp)
+		verifAssume(perr == nil)
+		w.pools = append(w.pools, pool)
+		maxA, maxB = 600, 700
+	}
+	a := mw.allocMappableIn(pool, "a", typeIndex, persistentA, maxA)
+	b := mw.allocMappableIn(pool, "b", typeIndex, false, maxB)
 	if a == nil || b == nil {
 		return
 	}
